@@ -4,7 +4,7 @@ from sim import history
 PROP = 'C15'
 TECHNIQUE = 'deterministic simulation: snapshot histories on a simulated clock with seeded filters/columns vs a reference history model'
 LEVEL = 'exploration'
-RULE = ('one case = a seeded history of 2..8 snapshots with distinct simulated timestamps (incl. whole seconds, day roll-over) '
+RULE = ('[users are processes per command or long-lived programs that keep one Repository object across commands] one case = a seeded history of 2..8 snapshots with distinct simulated timestamps (incl. whole seconds, day roll-over) '
         'over file sets where paths appear, change and disappear, by 1..2 users, interleaved with restore / list-snapshots / '
         'list-files under seeded snapshot and file regexes (prefixes, substrings, alternations of real names, anchors, none), '
         'seeded column selections and header on/off, and deletes by printed name; oracle = RefHistory: restored tree = newest '
